@@ -22,6 +22,10 @@ Definition g_restores_gains : bool := true.
    the only call, nothing kept from one request to the next. *)
 Definition g_route_memo : bool := false.
 
+(* gnpy/topology/request.py: explicit_path.  Matched: whole body; the route is `[source] + oms0.el_list` (a NEW list),
+   extended with the el_list of the following adjacent OMS; no attribute of an element or OMS is assigned. *)
+Definition g_explicit_path_new_list : bool := true.
+
 (* gnpy/topology/request.py: compare_reqs.  Translated: the attributes on which two requests must agree (in
    addition to the shape of their synchronization vectors) to be aggregated into one. *)
 Definition g_compared_fields : list string :=
